@@ -439,7 +439,7 @@ R_RHO = {"quick": [1, 5], "thorough": [1, 2, 5, 17]}
 R_PREF = [1.0, 0.5]
 R_GUARDS = {"quick": [0, 2], "thorough": [0, 1, 2]}
 R_X = {"quick": [0.125, 1.0, 4.0], "thorough": [0.0625, 0.25, 1.0, 4.0, 16.0]}
-R_T = {"quick": [None, 0.25, 2.0], "thorough": [None, 0.0625, 0.25, 1.0, 2.0, 8.0]}
+R_T = {"quick": [None, 0.0625, 0.25, 1.0, 2.0], "thorough": [None, 0.0625, 0.25, 1.0, 2.0, 8.0]}
 R_METHODS = ["sqrt", "monotonic", "linear"]
 N_NY = [2, 10]  # non-orthogonal sub-lattice (each case builds a fine contour: 0.15 s)
 N_RANGE = [0.02, 0.3, 3.0]  # nonorthogonal_*_poloidal_spacing_range in units of T
